@@ -607,7 +607,8 @@ func (ex *Exec) fmtFloat(t *Term) Value {
 		small := tAnd(tIntCmp("<", x, mkInt(1000000)), tIntCmp(">", x, mkInt(-1000000)))
 		plain := ex.fmtInt(x, true).(*Term)
 		exp := ex.fresh("fmtexp", SStr)
-		ex.assume(tImplies(tNot(small), tStrContains(exp, mkStr("e+"))))
+		exp.NonDigit = true
+		ex.assume(tStrContains(exp, mkStr("e+")))
 		return tIte(small, plain, exp)
 	}
 	return ex.fresh("fmtfloat", SStr)
@@ -936,5 +937,53 @@ func init() {
 			panic(&goPanic{val: ex.makeError(mkStr("reflect: call of reflect.Value.IsZero on zero Value")), descr: "reflect: call of reflect.Value.IsZero on zero Value", site: ex.site(site)})
 		}
 		return ex.isZeroVal(i.v)
+	})
+}
+
+func init() {
+	reg("math.Trunc", func(ex *Exec, fr *Frame, site ssa.Instruction, a []Value) Value {
+		t := a[0].(*Term)
+		if f, ok := t.F64Val(); ok {
+			return mkF64(float64(int64(f)) + 0*f) // exact for |f| < 2^63; larger values are already integral
+		}
+		if t.IntOf != nil {
+			return t
+		}
+		return newTerm("fp.roundToIntegral_RTZ", SF64, t)
+	})
+	reg("math.Abs", func(ex *Exec, fr *Frame, site ssa.Instruction, a []Value) Value {
+		t := a[0].(*Term)
+		if f, ok := t.F64Val(); ok {
+			if f < 0 || (f == 0 && 1/f < 0) {
+				return mkF64(-f)
+			}
+			return mkF64(f)
+		}
+		if t.IntOf != nil {
+			x := t.IntOf
+			abs := tIte(tIntCmp("<", x, mkInt(0)), tIntSub(mkInt(0), x), x)
+			if x.HasRng && x.Lo >= 0 {
+				abs = x
+			}
+			r := tIntToF64(abs)
+			return r
+		}
+		return newTerm("fp.abs", SF64, t)
+	})
+	reg("math.IsNaN", func(ex *Exec, fr *Frame, site ssa.Instruction, a []Value) Value {
+		return tFIsNaN(a[0].(*Term))
+	})
+	reg("math.IsInf", func(ex *Exec, fr *Frame, site ssa.Instruction, a []Value) Value {
+		t := a[0].(*Term)
+		if t.IntOf != nil {
+			return tFalse
+		}
+		return newTermFold("fp.isInfinite", t)
+	})
+	reg("strconv.FormatInt", func(ex *Exec, fr *Frame, site ssa.Instruction, a []Value) Value {
+		if b, ok := a[1].(*Term).BVVal(); !ok || b != 10 {
+			panic(unsupported("FormatInt base"))
+		}
+		return ex.fmtInt(a[0].(*Term), true)
 	})
 }
